@@ -9,6 +9,7 @@
 (*   Total         every outcome is ok or err (Robust: panic is not in the next-state relation)   *)
 (*   Deterministic all five runs give the same outcome and the same root'                         *)
 (*   PrintRebuild  the rebuilt plans behave like a freshly built one                              *)
+(*   PlanUnchanged String() before = after Execute; same object on a 2nd root = fresh plan on it  *)
 (*   SrcFrame      root'.src = root.src unless MayTouchSrc(plan)                                  *)
 (*   Semantics     Exec(plan, root) = ok/err (not "any") => the code agrees (values by Norm)      *)
 (* Mismatches are collected in TLC register 1 (needs -workers 1).                                 *)
@@ -68,6 +69,16 @@ Judge(e, i) ==
       pr == IF panics # {} \/ ~freshSame \/ HasMultiPath(p) THEN <<>>
             ELSE (IF prOk(estr) THEN <<>> ELSE <<mk("print-rebuild", <<"String", feat, estr.r>>)>>)
                  \o (IF prOk(esimp) THEN <<>> ELSE <<mk("print-rebuild", <<"Simplify", feat, esimp.r>>)>>)
+      \* ---- PlanUnchanged: executing a plan does not rewrite it.  (1) String() of the executed Plan object is the same before
+      \* the first and after the last Execute; (2) the executed object, run on a second and different root, behaves like a
+      \* freshly built plan on that root ({eq: 1} = the harness found the two observations identical)
+      altSame == e.alt_same
+      altFresh == IF "eq" \in DOMAIN e.alt_fresh THEN e.alt_same ELSE e.alt_fresh
+      altOk == altSame.r = "skip" \/ "eq" \in DOMAIN e.alt_fresh
+               \/ (altSame.r = altFresh.r /\ (altSame.root = altFresh.root \/ Norm(altSame.root) = Norm(altFresh.root)))
+      pu == IF panics # {} \/ HasMultiPath(p) THEN <<>>
+            ELSE (IF e.text0 = e.text1 THEN <<>> ELSE <<mk("plan-changed", <<"String-after-Execute">>)>>)
+                 \o (IF altOk THEN <<>> ELSE <<mk("plan-changed", <<"second-root", altSame.r, altFresh.r>>)>>)
       \* ---- SrcFrame
       idx == {1} \cup {j \in 2..5 : "eq" \notin DOMAIN e.runs[j]}
       frameBad == {j \in idx : rs[j].r \in {"ok", "err"} /\ Norm(SrcOf(rs[j].root)) # Norm(SrcOf(e.root))}
@@ -78,7 +89,7 @@ Judge(e, i) ==
              ELSE IF rs[1].r # "ok" THEN <<mk("wrong-value", <<"sem", "exp-ok", rs[1].r>>)>>
              ELSE IF Norm(rs[1].root) # Norm(E.root) THEN <<mk("wrong-value", <<"sem", "exp-ok", "other-root">>)>>
              ELSE <<>>
-  IN [bad |-> total \o det \o pr \o fr \o sem, k |-> E.k, cell |-> cell, post |-> IF E.k = "ok" THEN E.root ELSE e.root]
+  IN [bad |-> total \o det \o pr \o pu \o fr \o sem, k |-> E.k, cell |-> cell, post |-> IF E.k = "ok" THEN E.root ELSE e.root]
 
 TCase == /\ ci <= NT
          /\ LET e == Tr[ci]
